@@ -39,6 +39,12 @@ Definition Ry (a : R) : list R := [cos a;0;sin a; 0;1;0; - sin a;0;cos a].
 Definition Rz (a : R) : list R := [cos a;- sin a;0; sin a;cos a;0; 0;0;1].
 Definition Rzyx (ro pi ya : R) : list R := mmul3 (Rz ya) (mmul3 (Ry pi) (Rx ro)).
 
+(* the closed-form step of AngularRate.update on a rate w over dt:  q (x) (cos(|w|dt/2), w/|w| sin(|w|dt/2)) *)
+Definition vnorm (w : list R) : R := sqrt (e w 0 * e w 0 + e w 1 * e w 1 + e w 2 * e w 2).
+Definition ar_closed (q w : list R) (dt : R) : list R :=
+  let k := vnorm w in
+  qmul q [cos (k * dt / 2); e w 0 / k * sin (k * dt / 2); e w 1 / k * sin (k * dt / 2); e w 2 / k * sin (k * dt / 2)].
+
 (* gyroscope bias: Pdeg = ptp of the noise-free rates in deg/s of a three-row trajectory (w_0 = 0: the three zeros of
    row 0 enter as one 0); the bias drawn is (u - 1/2) Pdeg / 200 deg/s; in radians mode the code multiplies it by
    DEG2RAD twice - before adding it to the deg/s signal and again with the signal *)
